@@ -6,7 +6,8 @@ n=0;caught_n=0
 for d in sorted(glob.glob('/verif/seeded/C*')):
     m=json.load(open(d+'/meta.json'))
     sid=os.path.basename(d); n+=1
-    caught=[r for r in m['checks_run'] if r['exit']==1]
+    runs=m['final']['results'] if 'final' in m else m['checks_run']
+    caught=[r for r in runs if r['exit']==1]
     if caught: caught_n+=1
     by=', '.join(sorted(set(r['check'] for r in caught)))
     labels=[]
